@@ -359,6 +359,13 @@ def gen_func_cases(rng, tier):
     add("names", [frame("load/3/accepted/a.lat", 0), frame("w0/b.lat", 1)])          # src == dest
     add("names", [frame("w0/a.lat", 0)], files={"w0/a.lat": "new", "load/3/accepted/a.lat": "old", "load/3/order.txt": "stale"})
     add("names", [frame("load/3/accepted/a.lat", 0), frame("w1/a.lat", 1)])          # collision with a file in place
+    # ---- a path stored again in its own directory (after load_path its frames refer to load/<pn>/accepted):
+    # several files in place, every order of first use, with and without a leftover of a crashed attempt
+    for perm3 in itertools.permutations(("a", "b", "c")):
+        frs = [frame(f"load/3/accepted/{x}.lat", k, rev=bool(k % 2)) for k, x in enumerate(perm3)] + [frame(f"load/3/accepted/{perm3[0]}.lat", 5)]
+        add("inplace", frs)
+        add("inplace", frs, files=files_for(frs, {"load/3/accepted/stale.lat": "left by a crashed attempt", "load/3/order.txt": "stale"}))
+        add("inplace", frs[:2] + [frame("w0/new.lat", 0)] + frs[2:])
     # ---- keep_traj_fnames
     aux = {"w0/a.aux": "aux a", "w0/a.log": "log a", "w0/b.aux": "aux b", "w1/a.aux": "aux a1", "w0/a.lat.aux": "no"}
     for keep in ([".aux"], [".aux", ".log"], [".lat"], [".none"], ["", ".aux"]):
